@@ -80,6 +80,10 @@ class LadderNetworkMaker:
             parts.append(opts)
 
             if node == N2p:
+                if cg.G.number_of_edges() != 0:
+                    # There are other components, say hanging off
+                    # the output port, that are not part of the ladder.
+                    return []
                 return parts
 
     def make(self, N1p, N1m, N2p, N2m):
